@@ -53,6 +53,7 @@ type FuncContract struct {
 	Ensures   []*Clause
 	EnsuresA  []*Clause // ensures_always
 	NoPanic   *Clause
+	AlsoProps []string
 	NoPanicOwn *Clause
 	MergeJoins bool // merge symbolic states at join points instead of enumerating paths
 	Modifies  []string
@@ -372,6 +373,10 @@ func (cs *Contracts) LoadFile(path, pkgPath string) error {
 		switch word {
 		case "props":
 			cur.Props = strings.Fields(rest)
+			curOn = nil
+		case "alsoprops":
+			// properties this function serves only through clauses tagged with them explicitly
+			cur.AlsoProps = strings.Fields(rest)
 			curOn = nil
 		case "arith":
 			cur.Arith = rest
